@@ -146,6 +146,8 @@ def run_long(ctx, st):
                 b[0] = 1
             if i % 9973 == 5:
                 b = bytearray(64)           # an all-zero record somewhere inside the dump
+            if i % 7919 == 300:
+                b[8:40] = bytes(range(32))  # the same argument block again and again, far apart
             recs.append(bytes(b))
     sym = ctx.bytes('rec', 64)
     head = K.v2_file([(0x1d3, 7, b'procA')], st['pad'], recs[:mid])
